@@ -15,7 +15,8 @@ ASSUMPTIONS = ["refcodec is my reading of the layout, anchored on the BTS captur
                "(Data3D without links, BTS calibration, events) rest on the pinned implementation's layout"]
 REQUIRED = {t: ["oracle:C06.encode==reference", "oracle:C06.decode==reference",
                 "oracle:C06.capture-decode==reference", "capture:golden-digest-ok",
-                "oracle:C06.entry==reference", "oracle:C06.new==canonical", "oracle:C06.full-width-field-decoded-whole"] for t in ("quick", "thorough")}
+                "oracle:C06.entry==reference", "oracle:C06.new==canonical", "oracle:C06.full-width-field-decoded-whole",
+                "oracle:C06.written-entry==reference", "oracle:C06.decode-unsorted-segment-table"] for t in ("quick", "thorough")}
 
 
 def plan(tier, seed):
